@@ -751,6 +751,56 @@ def gen_alias(rng):
     return {"kind": "text", "name": "M", "text": text, "stream": "alias", "points": text_points(rng), "fixed": fixed}
 
 
+PWL = {   # piecewise-linear (not linear) bodies, a smooth one and a linear one
+    "deadband": "max(abs(a) - w, 0)", "sat": "min(max(a, -w), w)", "relu": "if a > w then a - w else 0",
+    "hat": "abs(a - w) + abs(a + w)", "lo": "min(a, w) + 0.5 * a", "sq2": "a * a + w", "lin": "2 * a - w"}
+
+
+def gen_attr(rng):
+    """attributes (min/max/start/nominal) defined through USER FUNCTIONS of the parameters, mostly piecewise linear
+    (abs/min/max/if), so that variable_metadata_function's affine test matters; der() applied to function calls with
+    scalar inputs and (flagged: known defect on the unrepaired tree) with a vector input"""
+    pool = ["deadband", "sat", "hat", "lo"]          # bodies whose call node has a structurally zero Hessian
+    F1, F2 = rng.sample(pool, 2)
+    F3 = rng.choice(pool + ["relu", "lin"])           # equations only unless it is in the pool
+    if rng.random() < 0.15:
+        F2 = "sq2"                                    # a smooth non-linear attribute: nothing may be linearised
+    names = [F1, F2, F3]
+    A3 = F3 if F3 in pool else F1
+    fns = "".join("function %s\n  input Real a;\n  input Real w;\n  output Real y;\nalgorithm\n  y := %s;\nend %s;\n" % (k, PWL[k], k)
+                  for k in sorted(set(names)))
+    fns += "function gain\n  input Real a;\n  output Real y;\nalgorithm\n  y := 2 * a;\nend gain;\n"
+    n = rng.randint(2, 4)
+    der_vec = rng.random() < 0.35
+    der_sc = rng.random() < 0.5
+    if der_vec:
+        k = rng.randint(1, 3)
+        fns += "function pick\n  input Real a[3];\n  output Real y;\nalgorithm\n  y := a[%d]%s;\nend pick;\n" % (
+            k, rng.choice(["", " * 2", " + a[%d]" % (k % 3 + 1)]))
+    if der_sc:
+        fns += "function sc\n  input Real a;\n  input Real b;\n  output Real y;\nalgorithm\n  y := %s;\nend sc;\n" % rng.choice(
+            ["a * b + a", "a - 2 * b", "a * a + b"])
+    attr = lambda f, x, y: "%s(%s, %s)" % (f, x, y)      # noqa
+    mdl = ("model M\n  parameter Integer n = %d;\n  parameter Real ref = %s;\n  parameter Real band = %s;\n"
+           % (n, rng.choice(["2.5", "1.5", "-2"]), rng.choice(["0.5", "1", "0.25"])))
+    mdl += "  Real h[n](each start = %s, each max = ref + %s, each min = -gain(band));\n" % (
+        rng.choice(["ref", attr(F2, "ref", "band")]), attr(F1, "ref", "band"))
+    mdl += "  Real q(nominal = %s, max = %s);\n" % (attr(F2, "ref", "band"), rng.choice(["gain(ref)", attr(A3, "band", "ref")]))
+    mdl += "  Real d(min = %s);\n  input Real u;\n" % rng.choice(["-band", attr(A3, "ref", "1"), "-3"])
+    if der_vec:
+        mdl += "  Real x[3];\n  Real z;\n"
+    if der_sc:
+        mdl += "  Real s;\n  Real t;\n"
+    mdl += "equation\n  for i in 1:n loop\n    der(h[i]) = -ref * h[i] + gain(u) + q;\n  end for;\n"
+    mdl += "  q = %s + %s;\n  d = u - %s;\n" % (attr(F1, "d", "band"), attr(F3, "u", "ref"), attr(F2, "h[1]", "band"))
+    if der_vec:
+        mdl += "  der(pick(x)) = z;\n  x[1] = time;\n  x[3] = 2 * time;\n  z = x[2] * 2;\n"
+    if der_sc:
+        mdl += "  der(sc(s, t)) = u + 1;\n  s = time * q;\n"
+    mdl += "initial equation\n  for i in 1:n loop\n    h[i] = i * ref;\n  end for;\nend M;\n"
+    return {"kind": "text", "name": "M", "text": fns + mdl, "stream": "attr", "points": text_points(rng), "der_vec": der_vec}
+
+
 # =============================================================================================
 # ORACLE: the 8 compilations agree
 # =============================================================================================
@@ -1055,7 +1105,31 @@ def has_call(m):
     return '"call"' in json.dumps([m["decls"], m["eqs"], m["ieqs"]]) or any(q[0] == "tuple" for q in m["eqs"])
 
 
+DER_TAG = "der-of-function-with-vector-input"
+
+
+def split_by_inline(case, res):
+    for flag in (0, 1):
+        idx = [i for i, c in enumerate(case["combos"]) if c[1] == flag]
+        sub = dict(case)
+        sub["combos"] = [case["combos"][i] for i in idx]
+        if len(idx) < 1 or judge(sub, {"combos": [res["combos"][i] for i in idx]}) is not None:
+            return False
+    return True
+
+
 def tag_of(m, case, res):
+    if m.get("der_vec") and "combos" in res and all(o.get("ok") for o in res["combos"]):
+        # der(f(x)) with f a user function of a VECTOR input: get_derivative Case 4 drops der(x) when the call is a
+        # node (not inlined).  Narrow: only residual VALUES differ, and exactly along inline_functions
+        why = judge(case, res) or ""
+        if (why.startswith("dae function") or why.startswith("init function")) and split_by_inline(case, res):
+            return DER_TAG
+        return "flags-change-the-model"
+    return tag_of_structured(m, case, res)
+
+
+def tag_of_structured(m, case, res):
     """narrow tag of the known interaction: a syntactic simplification option is set, the model calls a user
     function, and the 8 results fall into two internally agreeing groups split exactly by inline_functions"""
     if "decls" in m and any(case["fixed"].get(k) for k in SYNTACTIC) and has_call(m) and "combos" in res:
@@ -1092,7 +1166,7 @@ def run_models(ctx, cases):
 
 
 def slim(m):
-    return {k: m[k] for k in ("kind", "name", "N", "decls", "funs", "eqs", "ieqs", "stream", "text", "points") if k in m}
+    return {k: m[k] for k in ("kind", "name", "N", "decls", "funs", "eqs", "ieqs", "stream", "text", "points", "der_vec") if k in m}
 
 
 def run(ctx):
@@ -1104,7 +1178,7 @@ def run(ctx):
     ctx.notes["source_fingerprint"] = {BACKEND + "/generator.py": fp, BACKEND + "/model.py": fp2}
     f_tie = pool.submit(tie, ctx)
 
-    n_plain = int(os.environ.get("C12_N", 0)) or ctx.scaled(24, 1400)
+    n_plain = int(os.environ.get("C12_N", 0)) or ctx.scaled(20, 1400)
     n_delay = ctx.scaled(4, 150)
     n_simpl = ctx.scaled(5, 150)
     npts = 3
@@ -1119,9 +1193,11 @@ def run(ctx):
     cases2 = [to_case(m, SIMPL_FIXED) for m in simpl_models]
     # text-template streams (oracle only): matrix arguments / slices in function loops; intra-array aliases with
     # expand_vectors + detect_aliases fixed
-    n_matrix = ctx.scaled(6, 160)
-    n_alias = ctx.scaled(8, 200)
-    text_models = [gen_matrix(ctx.rng) for _ in range(n_matrix)] + [gen_alias(ctx.rng) for _ in range(n_alias)]
+    n_matrix = ctx.scaled(5, 160)
+    n_alias = ctx.scaled(7, 200)
+    n_attr = ctx.scaled(7, 200)
+    text_models = ([gen_matrix(ctx.rng) for _ in range(n_matrix)] + [gen_alias(ctx.rng) for _ in range(n_alias)]
+                   + [gen_attr(ctx.rng) for _ in range(n_attr)])
     cases3 = [to_case(m, m.get("fixed", PLAIN_FIXED)) for m in text_models]
     import time as _t
     t0 = _t.time()
@@ -1150,7 +1226,7 @@ def run(ctx):
     feat = {}
     for stream, ms, cs, rs in (("no simplification option", models, cases, results),
                                ("substitution options fixed", simpl_models, cases2, results2),
-                               ("text templates: matrix function arguments / intra-array aliases with expand_vectors+detect_aliases fixed",
+                               ("text templates: matrix function arguments / intra-array aliases with expand_vectors+detect_aliases fixed / attributes through piecewise-linear user functions, der() of calls",
                                 text_models, cases3, results3)):
         for mi_, (m, c, r) in enumerate(zip(ms, cs, rs)):
             why = judge(c, r)
@@ -1214,7 +1290,7 @@ def run(ctx):
         m.setdefault("stream", "known")
         if "text" not in m:
             finalize(m, ctx.rng, 2)
-        c = to_case(m, entry["replay"]["fixed"])
+        c = to_case(m, entry["replay"].get("fixed", PLAIN_FIXED))
         r = run_models(ctx, [c])[0]
         return judge(c, r) is not None and tag_of(m, c, r) == entry["tag"]
     core.replay_known(ctx, still_fails)
@@ -1232,7 +1308,7 @@ def run(ctx):
                           sorted(k for k in SIMPL_FIXED if k != "check_balanced"), len(text_models), rejected, len(enc)))
     ctx.cov["samples"] = [models[n_corpus]["text"], models[n_corpus + 1]["text"][:700]]
     ctx.notes["input_distribution"] = {"models_using": feat, "models": len(models) + len(simpl_models) + len(text_models),
-                                       "text_streams": {"matrix": n_matrix, "alias": n_alias},
+                                       "text_streams": {"matrix": n_matrix, "alias": n_alias, "attr": n_attr},
                                        "flag_combinations": COMBOS}
     ctx.assumptions += [
         "CasADi's contract (Section hypotheses of Proofs/C12_options.v, `strategies_ok`): the value of a mapped function "
